@@ -273,8 +273,10 @@ public:
    * Sorts incoming edges of all nodes. Comparison is by getInEdgeDst(e).
    */
   void sortAllInEdgesByDst(MethodFlag mflag = MethodFlag::WRITE) {
+    // every node, not the threads' stored local ranges (those are only valid
+    // for the thread count the graph was read with)
     galois::do_all(
-        galois::iterate(*this),
+        galois::iterate(this->begin(), this->end()),
         [=](GraphNode N) { this->sortInEdgesByDst(N, mflag); },
         galois::steal());
   }
